@@ -870,6 +870,42 @@ pub fn c11(cx: &Ctx) -> Report {
             }
             r.hist("unicode-context-sweeps", 1);
         }
+        // every other derived entry point is a way to obtain a value too (From / TryFrom on the raw domain, FromStr
+        // on the C06 text set): whatever they return must be canonical, whether or not it is what the
+        // constructor would have returned (that comparison is C03's)
+        {
+            let mut seen: HashSet<Val> = HashSet::new();
+            let mut check = |entry: &str, shown: String, o: Outcome, r: &mut Report| {
+                r.evaluations += 1;
+                if let Outcome::Ok(v) = o {
+                    if init.contains(&v) || !seen.insert(v.clone()) {
+                        return;
+                    }
+                    let again = s.construct(&v);
+                    r.transitions += 1;
+                    if again != Outcome::Ok(v.clone()) {
+                        r.violate(mkviol("C11", i, d, &format!("{entry}->into_inner->try_new"), format!("{shown} -> {}", v.show()), format!("Ok({})", v.show()), again.show(), "not-canonical"));
+                    }
+                }
+            };
+            for raw in &dom {
+                check("TryFrom", raw.show(), s.try_from_inner(raw), r);
+                check("From", raw.show(), s.from_inner(raw), r);
+            }
+            if d.derives(Tr::FromStr) && d.family() != Family::Str {
+                for t in fromstr_texts(d, &dom, tier) {
+                    let o = s.from_str(&t);
+                    check("FromStr", format!("{t:?}"), o, r);
+                }
+            }
+            if d.derives(Tr::FromStr) && d.family() == Family::Str {
+                for raw in &dom {
+                    let o = s.from_str(raw.as_str());
+                    check("FromStr", raw.show(), o, r);
+                }
+            }
+            r.hist("entry-point-sweeps", 1);
+        }
         // Arbitrary is one more way to obtain a value: whatever it returns must be canonical too
         // (only where idempotence of the chain does not rest on the bounded domain: the generator draws
         // characters outside it)
